@@ -315,6 +315,18 @@ def run(ctx):
         for dn, da in match_crafts(a, zckref.parse(a), pb):
             groups.append(("%s:%s:%s" % (aw, ac.name(), dn), da, "-", None, [(mk[0], "m1"), (mk[0], "c1")]))
         cross.append(("%s:%s" % (bw, bc.name()), b, groups))
+    # chunks that end in runs of zeros (and one that is all zeros), source truncated at every length: a copy loop that hashes
+    # its own zero-initialised buffer instead of what it read would call the truncated chunk good
+    zt = []
+    for comp in (0,):
+        zf, zh, zbody = zckref.build_file([b"AB" + bytes(30), bytes(20) + b"Q", bytes(25), b"xyz" + bytes(40)], comp=comp, htype=1, ctype=3)
+        pz = zckref.parse(zf)
+        mkz = marks(pz, False)
+        groups = [("zeros:%s" % dn, da, "-", None, [(mkz[0], "c1"), (mkz[0], "c1,c1")]) for dn, da in damages(zf, pz, pz, False, True)
+                  if dn.startswith("trunc") or dn == "intact"]
+        for ch in core.chunks(groups, 60):
+            zt.append(("zero-tails:c%d" % comp, zf, ch))
+    cross += zt
     ctx.bounds = {"words": "<= 3 letters over %s" % alpha, "configurations": [c.name() for c in cfgs], "pairs": npairs,
                   "target_markings": "every subset of chunks valid", "sequences": "c1 | c1,c1 | c1,c2 | c2,c1 | m1 | m1,m2"}
     ctx.rule = "case = (target marking, source with damage, call sequence); non-trivial = case in which a copy changed a chunk's marking"
